@@ -54,6 +54,7 @@ class Resolver:
     # ------------------------------------------------------------------ internals
     def _translator(self) -> Translator:
         T = Translator(call_hook=self._call_hook, symbol_hook=self._symbol_hook)
+        T.unroll_comps = True           # comprehensions over literal sequences are their elements
         res = self
 
         def t_name(n, T=T):
@@ -92,6 +93,8 @@ class Resolver:
         return self.symbols.get(name)
 
     def _name(self, name: str, T: Translator) -> sp.Expr:
+        if name in T.env:
+            return T.env[name]          # bound by an enclosing comprehension / lambda / unrolled sequence
         if name in self.symbols:
             return self.symbols[name]
         at = self._ctx[-1]
@@ -128,7 +131,10 @@ class Resolver:
                         i = names.index(name)
                         if isinstance(d.value, (ast.Tuple, ast.List)) and len(d.value.elts) == len(t.elts):
                             return self._translator().tr(d.value.elts[i])
-                        return sp.Function("getitem")(self._translator().tr(d.value), sp.Integer(i))
+                        whole = self._translator().tr(d.value)
+                        if isinstance(whole, sp.Tuple) and i < len(whole):
+                            return whole[i]             # a, b = (x, y): a is x
+                        return sp.Function("getitem")(whole, sp.Integer(i))
                     # nested targets: stay symbolic
             return T.sym(name)
         if isinstance(d, ast.AnnAssign) and d.value is not None:
